@@ -94,6 +94,19 @@ def run(ctx):
         if rng.random() < 0.2:
             s = strings.mutate(rng, s)
         ahb.append(s)
+    # AHB expressions of the documented forms, assembled from condition expressions the independent acceptor accepts
+    good = [s for s in pool if isinstance(s, str) and len(s) < 60 and pyparse.accepts(s) is True]
+    MODAL = [i for i in INDICATORS if i[0] in "MSKmsk"]
+    PREFIX = [i for i in INDICATORS if i[0] in "XOUxou"]
+    for _ in range(300 if ctx.quick else 4000):
+        if not good:
+            break
+        form = rng.choice(("modal", "modal", "modal+bare", "prefix"))
+        if form == "prefix":
+            ahb.append(rng.choice(PREFIX) + rng.choice(("", " ")) + rng.choice(good))
+        else:
+            s = "".join(rng.choice(MODAL) + rng.choice(("", " ")) + rng.choice(good) for _ in range(rng.choice((1, 1, 2, 3, 4))))
+            ahb.append(s + (rng.choice(MODAL) if form == "modal+bare" else ""))
     ahb += ["Muss [1] U", "Muss[1]U", "Soll ([1]", "Kann [1] [", "X [1]O", "Mus[2]", "MU[1]", "MUU[1]", "Muss[2]C[3]", "Muſſ[1]", "K[1]", "", " ", "Muss", " Muss[1]",
             "Muss[1] ", "Muss [1]\x0bSoll[2]", "Muss[1]Soll", "Muss[1]X", "X", "x", "XX", "Muss[1P]", "Muss[UB1]", "Muss[1P0..1]", "Muss [1] Soll [2] Kann"]
     ahb += strings.MALFORMED_META
@@ -118,6 +131,17 @@ def run(ctx):
                 ctx.fail(f"{name}|{s}", {"entry": name, "string": s}, "Tree or SyntaxError", repr(r[1])[:80], "oracle: result is not a tree")
             if r[0] == "exn" and r[1] != "SyntaxErr":
                 ctx.fail(f"{name}|{s}", {"entry": name, "string": s}, "Tree or SyntaxError", r[1], "oracle: only SyntaxError may escape")
+        # an AHB expression of one of the documented forms (judged by an independent reading) must be accepted by the AHB parser and the resolver
+        if pyparse.ahb_accepts(s) is True:
+            ctx.dist("ahb.stream", "documented form (independent acceptor)")
+            for name, fn in (("parse_ahb_expression_to_single_requirement_indicator_expressions", lambda: parse_ahb(s)),
+                             ("parse_expression_including_unresolved_subexpressions", lambda: asyncio.run(resolve(s)))):
+                r = classify(fn)
+                if r[0] != "ok":
+                    ctx.fail(f"ahb-accept|{name}|{s}", {"entry": name, "string": s}, "accepted (an AHB expression of a documented form)", r[1],
+                             "oracle: accepted language = documented language (AHB expressions)")
+        else:
+            ctx.dist("ahb.stream", "other")
         # an AHB expression whose indicator structure is fine but whose condition part is malformed must be rejected
         pa = classify(lambda: parse_ahb(s))
         if pa[0] == "ok" and isinstance(pa[1], Tree):
